@@ -29,6 +29,14 @@ type RLCase struct {
 	// Sparse: bulk cases (hundreds of keys in the bucket) run the oracle only
 	// after flush and evict operations and at the end.
 	Sparse bool `json:"sparse,omitempty"`
+	// Boundary d (1..4): the case runs in an index of its own whose file-size
+	// limit is d bytes above the length the index file has when the flush
+	// operation at index BoundaryAt begins (measured in a first pass with an
+	// unlimited file), so that the record list written by that flush starts
+	// within the last four bytes below the limit: its bucket position then
+	// lies at or beyond the limit although the list belongs to that file.
+	Boundary   int `json:"boundary,omitempty"`
+	BoundaryAt int `json:"boundary_at,omitempty"`
 }
 
 const c08Rule = "index.Index over the in-memory primary; caller contract as the store keeps it (Put only for absent keys, Update/Remove only for present keys; equal-length distinct keys of one bucket). " +
@@ -45,6 +53,8 @@ type c08Env struct {
 	fileMax uint32
 	// evictSeq makes the keys written into neighbouring buckets unique.
 	evictSeq uint32
+	// beforeFlushOp is called with the operation index before a flush operation.
+	beforeFlushOp func(i int)
 }
 
 func newC08Env(bits uint8) *c08Env {
@@ -108,6 +118,7 @@ func decodeRL(data []byte) ([]rlEntry, error) {
 
 type rlStats struct {
 	evicted    bool
+	boundary   bool
 	maxLen     int
 	lengthened bool
 }
@@ -209,6 +220,9 @@ func runRL(e *c08Env, c RLCase) (st rlStats, v *Violation) {
 			continue
 		}
 		if op.K == "flush" {
+			if e.beforeFlushOp != nil {
+				e.beforeFlushOp(i)
+			}
 			if _, err := e.idx.Flush(); err != nil {
 				return st, viol("index-flush-error|flush|"+errClass(err), i, "%v", err)
 			}
@@ -396,6 +410,53 @@ func genRL(t *rapid.T) RLCase {
 	return c
 }
 
+// genRLBoundary: a random case with one of its flushes placed at the file-size
+// boundary, followed by a push-out so that the list is read from disk.
+func genRLBoundary(t *rapid.T) RLCase {
+	c := genRL(t)
+	if len(c.Ops) > 40 {
+		c.Ops = c.Ops[:40]
+	}
+	// Somewhere behind a change: flush, push out, and go on.
+	at := rapid.IntRange(1, len(c.Ops)).Draw(t, "boundaryAfter")
+	rest := c.Ops[at:]
+	ops := append([]RLOp{}, c.Ops[:at]...)
+	if ops[0].K != "set" {
+		ops = append([]RLOp{{K: "set", Key: 0}}, ops...)
+	}
+	ops = append(ops, RLOp{K: "set", Key: rapid.IntRange(0, len(c.Tails)-1).Draw(t, "bkey")})
+	c.BoundaryAt = len(ops)
+	ops = append(ops, RLOp{K: "flush"}, RLOp{K: "evict"})
+	c.Ops = append(ops, rest...)
+	c.Boundary = rapid.IntRange(1, 4).Draw(t, "boundary")
+	return c
+}
+
+// runRLBoundary runs a Boundary case: a measuring pass, then the real one.
+func runRLBoundary(c RLCase) (st rlStats, v *Violation) {
+	length := int64(-1)
+	e1 := &c08Env{bits: c.Bits, fileMax: 1 << 30}
+	e1.reset()
+	e1.beforeFlushOp = func(i int) {
+		if i == c.BoundaryAt {
+			if fi, err := os.Stat(filepath.Join(e1.dir, "idx.0")); err == nil {
+				length = fi.Size()
+			}
+		}
+	}
+	st, v = runRL(e1, c)
+	e1.close()
+	if v != nil || length < 0 {
+		return st, v
+	}
+	e2 := &c08Env{bits: c.Bits, fileMax: uint32(length) + uint32(c.Boundary)}
+	e2.reset()
+	defer e2.close()
+	st, v = runRL(e2, c)
+	st.boundary = true
+	return st, v
+}
+
 // exhaustiveRL enumerates the small universes. It calls fn for every case.
 func exhaustiveRL(sigma []byte, maxInsert int, withFollowUps bool, shard, shards int, fn func(RLCase) bool) {
 	var universe []HexBytes
@@ -488,7 +549,11 @@ func TestC08(t *testing.T) {
 	if envReplay != "" {
 		var c RLCase
 		readReplay(envReplay, &c)
-		_, v := runRL(env(c.Bits), c)
+		run1 := func() (rlStats, *Violation) { return runRL(env(c.Bits), c) }
+		if c.Boundary > 0 {
+			run1 = func() (rlStats, *Violation) { return runRLBoundary(c) }
+		}
+		_, v := run1()
 		ev.Record(c, true)
 		if v != nil {
 			ev.Report(v, c)
@@ -499,7 +564,11 @@ func TestC08(t *testing.T) {
 	for _, f := range regressFiles("C08") {
 		var c RLCase
 		readReplay(f, &c)
-		_, v := runRL(env(c.Bits), c)
+		run1 := func() (rlStats, *Violation) { return runRL(env(c.Bits), c) }
+		if c.Boundary > 0 {
+			run1 = func() (rlStats, *Violation) { return runRLBoundary(c) }
+		}
+		_, v := run1()
 		ev.Record(c, true, "regression-case")
 		if v != nil && ev.Report(v, c) {
 			t.Fatalf("regression case %s: %v", f, v)
@@ -548,6 +617,28 @@ func TestC08(t *testing.T) {
 			rt.Fatalf("%v", v)
 		}
 	})
+	// Boundary part: a record list that starts within the last four bytes
+	// below the index file-size limit.
+	setRapidChecks(budget(1500, 6000))
+	rapid.Check(t, func(rt *rapid.T) {
+		if pastDeadline() {
+			ev.Skip()
+			return
+		}
+		c := genRLBoundary(rt)
+		st, v := runRLBoundary(c)
+		cl := []string{"boundary"}
+		if st.boundary && st.evicted {
+			cl = append(cl, fmt.Sprintf("boundary:list-starts-%d-below-limit", c.Boundary))
+		}
+		ev.Record(c, st.boundary && st.evicted && st.maxLen >= 2, cl...)
+		if v != nil && ev.Report(v, c) {
+			rt.Fatalf("%v", v)
+		}
+	})
+	if t.Failed() {
+		return
+	}
 	// Bulk part: record lists of several KiB read from disk.
 	setRapidChecks(budget(24, 40))
 	rapid.Check(t, func(rt *rapid.T) {
